@@ -191,3 +191,95 @@ macro_rules! c07_bump {
 }
 c07_bump!(c07_bump_cap64, quick, 3, 64);
 c07_bump!(c07_bump_cap4096, thorough, 3, 4096);
+
+// ---------------------------------------------------------------- MemoryPool (pool.rs)
+use zipora::memory::pool::{MemoryPool, PoolConfig};
+
+/// Fixed-size chunk pool: a = alloc; b = alloc; free(a or b, solver's choice); c = alloc; d = alloc.
+fn mempool_hist<const CHUNK: usize>() {
+    let pool = match MemoryPool::new(PoolConfig::new(CHUNK, 2, 8)) { Ok(p) => p, Err(e) => { forget(e); return; } };
+    let a = match pool.allocate() { Ok(p) => p, Err(e) => { forget(e); return; } };
+    let b = match pool.allocate() { Ok(p) => p, Err(e) => { forget(e); return; } };
+    let (va, vb, vc, vd): (u8, u8, u8, u8) = (vany(), vany(), vany(), vany());
+    unsafe { stamp(a, CHUNK, va); stamp(b, CHUNK, vb); }
+    assert!(disjoint(a, CHUNK, b, CHUNK), "two live chunks overlap");
+    let free_a: bool = vany();
+    let (live, vlive, freed) = if free_a { (b, vb, a) } else { (a, va, b) };
+    let r = pool.deallocate(freed);
+    assert!(r.is_ok(), "free of an issued chunk refused");
+    forget(r);
+    let c = match pool.allocate() { Ok(p) => p, Err(e) => { forget(e); return; } };
+    unsafe { stamp(c, CHUNK, vc) };
+    let d = match pool.allocate() { Ok(p) => p, Err(e) => { forget(e); return; } };
+    unsafe { stamp(d, CHUNK, vd) };
+    assert!(disjoint(live, CHUNK, c, CHUNK) && disjoint(live, CHUNK, d, CHUNK) && disjoint(c, CHUNK, d, CHUNK), "two live chunks overlap");
+    assert!(unsafe { stamped(live, CHUNK, vlive) && stamped(c, CHUNK, vc) }, "a live chunk lost its contents");
+    assert!((c.as_ptr() as usize) % 8 == 0 && (d.as_ptr() as usize) % 8 == 0, "chunk not aligned as configured");
+    zcover!(c == freed, "freed chunk was reused");
+    zcover!(free_a, "first chunk freed");
+    forget(pool);
+}
+macro_rules! c07_mempool {
+    ($name:ident, $tier:ident, $unwind:literal, $chunk:literal) => {
+        zv_harness! {
+            name: $name,
+            prop: "C07",
+            tier: $tier,
+            unwind: $unwind,
+            stubs: [alloc::fmt::format => crate::common::stubs::fmt_format],
+            targets: "memory::pool::MemoryPool::{new, allocate, deallocate, allocate_new_chunk}",
+            bounds: "chunk size CHUNK (instance arg), max_chunks 2, alignment 8; history alloc alloc free(solver picks which) alloc alloc; symbolic byte stamps",
+            oracle: "live chunks pairwise disjoint, first/last byte inside their allocation (CBMC pointer checks), contents kept across later alloc/free, configured alignment, free of an issued chunk succeeds",
+            body: { mempool_hist::<$chunk>() }
+        }
+    };
+}
+c07_mempool!(c07_mempool_chunk16, quick, 6, 16);
+c07_mempool!(c07_mempool_chunk64, thorough, 6, 64);
+
+// ---------------------------------------------------------------- FixedCapacityMemoryPool
+use zipora::memory::fixed_capacity_pool::{FixedCapacityMemoryPool, FixedCapacityPoolConfig};
+
+fn fixedcap_hist() {
+    let cfg = FixedCapacityPoolConfig { max_block_size: 32, total_blocks: 2, alignment: 8, enable_stats: false, eager_allocation: true, secure_clear: false };
+    let pool = match FixedCapacityMemoryPool::new(cfg) { Ok(p) => p, Err(e) => { forget(e); return; } };
+    let s1: usize = vany();
+    let s2: usize = vany();
+    let s3: usize = vany();
+    assume(s1 >= 1 && s1 <= 32 && s2 >= 1 && s2 <= 32 && s3 >= 1 && s3 <= 40);
+    let a = pool.allocate(s1);
+    let b = pool.allocate(s2);
+    if let (Ok(x), Ok(y)) = (&a, &b) {
+        assert!(x.size() >= s1 && y.size() >= s2, "block smaller than requested");
+        let (px, py) = (NonNull::new(x.as_ptr()).unwrap(), NonNull::new(y.as_ptr()).unwrap());
+        unsafe { stamp(px, x.size(), 0x5A); stamp(py, y.size(), 0xA5); }
+        assert!(disjoint(px, x.size(), py, y.size()), "two live blocks overlap");
+        assert!(unsafe { stamped(px, x.size(), 0x5A) }, "a live block lost its contents");
+        assert!((x.as_ptr() as usize) % 8 == 0 && (y.as_ptr() as usize) % 8 == 0, "block not aligned as configured");
+    }
+    let c = pool.allocate(s3);
+    if s3 > 32 {
+        assert!(c.is_err(), "a request above max_block_size was served");
+    }
+    if let (Ok(x), Ok(z)) = (&a, &c) {
+        let (px, pz) = (NonNull::new(x.as_ptr()).unwrap(), NonNull::new(z.as_ptr()).unwrap());
+        assert!(disjoint(px, x.size(), pz, z.size()), "two live blocks overlap");
+    }
+    zcover!(a.is_ok() && b.is_ok(), "two blocks served");
+    zcover!(c.is_err(), "third request refused");
+    forget(a);
+    forget(b);
+    forget(c);
+    forget(pool);
+}
+zv_harness! {
+    name: c07_fixedcap_hist,
+    prop: "C07",
+    tier: quick,
+    unwind: 12,
+    stubs: [alloc::fmt::format => crate::common::stubs::fmt_format],
+    targets: "memory::fixed_capacity_pool::FixedCapacityMemoryPool::{new, allocate, generate_size_classes, find_size_class, allocate_from_free_list}, FixedCapacityAllocation::{as_ptr,size}",
+    bounds: "max_block_size 32, total_blocks 2, alignment 8, eager allocation; three allocate calls with symbolic sizes 1..=32 (third up to 40)",
+    oracle: "served blocks are at least the requested size, pairwise disjoint, inside the pool's memory (CBMC pointer checks on first/last byte), keep their contents, are aligned as configured; a request above max_block_size is refused with Err",
+    body: { fixedcap_hist() }
+}
